@@ -229,6 +229,17 @@ theorem untouched_setCli (b : B) (c : Cli) : Untouched b (b.setCli c) := ⟨rfl,
 theorem untouched_setSess {b : B} {s s0 : Sess} (h0 : b.sess? s.cid = some s0) (hq : s.queue = s0.queue) :
     Untouched b (b.setSess s) := ⟨rfl, rfl, rfl, rfl, queueOf_setSess h0 hq⟩
 
+theorem untouched_dupQuota (b : B) (c : Cli) (r : PubReq) (dupl : Bool) : Untouched b (dupQuota b c r dupl) := by
+  unfold dupQuota
+  split
+  · split
+    · exact untouched_setCli _ _
+    · exact Untouched.refl b
+  · exact Untouched.refl b
+
+theorem dupQuota_false (b : B) (c : Cli) (r : PubReq) : dupQuota b c r false = b := by
+  simp [dupQuota]
+
 theorem untouched_acknowledge (b : B) (c : Cli) (r : PubReq) (code : Nat) : Untouched b (acknowledge b c r code) := by
   have h1 : Untouched b (ackEmit b r code) := by
     unfold ackEmit
